@@ -2,18 +2,21 @@
   Property C01 for the weekly filler `rrul_fill_wly` (model `fillWly`) against the RFC 5545 specification
   `Echse.Spec.Rfc.WeeklyInst`:
 
-    fillWly_sound     every instant written is an instance of the rule anchored at the seed (with or without BYSETPOS)
-    fillWly_complete  (without BYSETPOS) none missing: an instance `x` at or after the seed, not after UNTIL and not after
+    fillWly_sound     every instant written is an instance of the rule anchored at the seed, and chosen by BYSETPOS
+    fillWly_complete  none missing: an instance `x` chosen by BYSETPOS, at or after the seed, not after UNTIL and not after
                       2099 is in the result `l`, or `l` is full (`capOf r n` elements: `n`, or COUNT if smaller) and all of
                       `l` comes before `x`.  With `FillOk` (ascending, `fillWly_ok_partial`) this says: `l` is the first
                       `capOf r n` elements of the recurrence set from the seed on.
+    (`fillWly_inst`, `fillWly_complete_nopos`: the same without reference to BYSETPOS / for rules without BYSETPOS)
+  BYSETPOS counts within the Monday-based week over all of the week's instances, those before the seed included — the
+  code's `nset` / `nday` and the specification's `SetposOk` agree on that.
 
   Hypothesis added to the brief's: `SeedOk r p` (a DATE seed has no BYHOUR/BYMINUTE/BYSECOND), stronger than `TimeOk`:
   FALSE without it, e.g. r = { freq := 3, H := [9] }, p = 2020-01-01 (all day): fillWly r p 2 = 2020-01-01T09:00:00,
   2020-01-08T09:00:00, timed instants, which are not of the seed's kind (`SameKind`); RFC 5545 says BYHOUR is to be
   ignored there, the code does not ignore it.
 -/
-import Echse.Lemmas.RrWlyRfc6
+import Echse.Lemmas.RrWlyPos4
 namespace Echse.Lemmas.RrWlyRfc
 open Echse.Rrule Echse.Instant Echse.Spec.RrOk Echse.Spec.Cal Echse.Spec.RuleExt Echse.Spec.Rfc
 open Echse.Lemmas.RrOkBase Echse.Lemmas.RrRfc
@@ -48,13 +51,48 @@ theorem fillWly_sound' (r : Rule) (p : Inst) (n : Nat) (l : List Inst) (hr : WfR
       exact ((hcw.comp o _ _ _ hc).props hv0.1 hv0.2.1 (by omega)).1.2.1
     exact ⟨wly_inst r p nti hr hp hs hy2 hv0 hl0 hback j o ty tm td ho (hcw.comp o _ _ _ hc) (by omega) hbit t ht, hty, hge⟩
 
-theorem fillWly_sound (r : Rule) (p : Inst) (n : Nat) (l : List Inst) (hr : WfRule r) (hp : WfInst p)
+theorem fillWly_inst (r : Rule) (p : Inst) (n : Nat) (l : List Inst) (hr : WfRule r) (hp : WfInst p)
     (hs : SeedOk r p) (_hn : n ≤ 64) (hy : 1901 ≤ p.y) (h : fillWly r p n = some l) :
     ∀ x ∈ l, WeeklyInst r p x := fun x hx => (fillWly_sound' r p n l hr hp hs hy h x hx).1
 
-theorem fillWly_complete (r : Rule) (p : Inst) (n : Nat) (l : List Inst) (hr : WfRule r) (hp : WfInst p)
-    (hs : SeedOk r p) (_hn : n ≤ 64) (hy : 1901 ≤ p.y) (hpos : r.pos = []) (h : fillWly r p n = some l)
-    (x : Inst) (hx : WeeklyInst r p x) (hge : absOf p ≤ absOf x) (hle : ltP r.untl x = false) (hxy : x.y ≤ 2099) :
+/-- the days of a week one of whose days is not after 2099 are not after January 2100 -/
+theorem week_bound {y m d o ty tm td : Nat} (hv : VD y m d) (ho : o ≤ 6) (hc : Carry y m (d + o) ty tm td)
+    (hty : ty ≤ 2099) :
+    ∀ D, d ≤ D → D ≤ d + 6 → ∀ ty' tm' td', Carry y m D ty' tm' td' → ty' * 12 + tm' ≤ 25201 := by
+  intro D h1 h2 ty' tm' td' hc'
+  have hd1 := hv.2.2.1
+  have hd31 := hv.d31
+  have hm12 := hv.2.1
+  obtain ⟨hvt, -, -, -⟩ := hc.props hv.1 hv.2.1 (by omega)
+  obtain ⟨hvt', -, -, -⟩ := hc'.props hv.1 hv.2.1 (by omega)
+  have ht31 := hvt.d31
+  have ht31' := hvt'.d31
+  have htm := hvt.2.1
+  have htm' := hvt'.2.1
+  have hyy := carry_year hc hv.1 hv.2.1 (by omega)
+  by_cases c : D ≤ d + o
+  · have hk : dkey ty' tm' td' ≤ dkey ty tm td := by
+      by_cases e : D = d + o
+      · subst e; obtain ⟨e1, e2, e3⟩ := carry_det hc' hc; rw [e1, e2, e3]; exact Nat.le_refl _
+      · exact Nat.le_of_lt (hc'.mono _ _ _ _ hc (by omega) hv.1 hv.2.1 (by omega))
+    unfold dkey at hk
+    omega
+  · have e : D = d + o + (D - (d + o)) := by omega
+    rw [e] at hc'
+    have hs := carry_split hc hc' ⟨hv.1, hv.2.1⟩ (by omega) (by unfold pot; omega)
+    have := carry_one hs hvt.1 hvt.2.1 (by have := hvt.2.2.2; omega)
+    omega
+
+/-- completeness, given that the week loop's BYSETPOS test lets `x` pass -/
+theorem wly_complete' (r : Rule) (p : Inst) (n : Nat) (l : List Inst) (hr : WfRule r) (hp : WfInst p)
+    (hs : SeedOk r p) (hy : 1901 ≤ p.y) (h : fillWly r p n = some l)
+    (x : Inst) (hx : WeeklyInst r p x) (hge : absOf p ≤ absOf x) (hle : ltP r.untl x = false) (hxy : x.y ≤ 2099)
+    (hsk : ∀ nti y0 m0 d0 j y m d o ix, capNti r n = some nti → p.y ≤ 2099 → VD y0 m0 d0 → LowOk y0 m0 → y0 ≤ 2099 →
+      Carry y0 m0 (d0 + wlyBack r p) p.y p.m p.d → Carry y0 m0 (d0 + j * wk (wctx r p nti)) y m d →
+      o ∈ offs 8 (wlyIncs r) 0 → Carry y m (d + o) x.y x.m x.d → bit (monMask r.mon) x.m = true →
+      (ix, x.H, x.M, x.S) ∈ (makeEnum p r).timesIx →
+      wlySkip (wctx r p nti) (wlyNset (wctx r p nti) m d (getNdom y m))
+        (ndAt (wctx r p nti) y m (offs 8 (wlyIncs r) d) (d + o)) ix = false) :
     x ∈ l ∨ (l.length = capOf r n ∧ ∀ z ∈ l, ltP z x = true) := by
   unfold capOf
   cases hcap : capNti r n with
@@ -67,26 +105,91 @@ theorem fillWly_complete (r : Rule) (p : Inst) (n : Nat) (l : List Inst) (hr : W
     obtain ⟨y0, m0, d0, hv0, hl0, hy0, hback, he⟩ := fillWly_start r p n nti hr hp hy hcap
     rw [he] at h
     obtain ⟨l', hl, rfl⟩ := Option.map_eq_some_iff.1 h
-    have hen : EnumOk (mkCtx r p nti (wlyIncs r)).e := makeEnum_ok r p hr hp hs.timeOk
-    obtain ⟨l2, hl2, hacc⟩ := wlyLoop_spec (mkCtx r p nti (wlyIncs r)) hr hp (wlyIncs_nib r) (wlyDlyFuel y0 nti) y0 m0 d0 []
+    have hen : EnumOk (wctx r p nti).e := makeEnum_ok r p hr hp hs.timeOk
+    obtain ⟨l2, hl2, hacc⟩ := wlyLoop_spec (wctx r p nti) hr hp (wlyIncs_nib r) (wlyDlyFuel y0 nti) y0 m0 d0 []
       hv0 (by omega) (fun _ => ⟨Acc.nil _ _ _, Below.nil _ _ _⟩) (enough_start y0 m0 d0 nti hv0)
     rw [hl] at hl2
     cases hl2
     have hacc := hacc hen
     obtain ⟨k, o, ho, hc, hmon, -, ix, hix⟩ := wly_inst_conv r p nti hr hp hs hy2 hv0 hl0 (by omega) hback x hx
       (by have := hx.1.2.1; omega)
-    have hskip : ∀ y m d, VD y m d → Carry y m (d + o) x.y x.m x.d →
-        wlySkip (mkCtx r p nti (wlyIncs r)) (wlyNset (mkCtx r p nti (wlyIncs r)) m d (getNdom y m))
-          (ndAt (mkCtx r p nti (wlyIncs r)) y m (offs 8 (mkCtx r p nti (wlyIncs r)).wdIncs d) (d + o)) ix = false := by
-      intro y m d _ _
-      unfold wlySkip
-      show ((!r.pos.isEmpty) && _) = false
-      rw [hpos]; rfl
-    rcases wlyLoop_complete (mkCtx r p nti (wlyIncs r)) hr hp hen (wlyIncs_nib r) x o ho hxy hx.1.2.2.2.2.1 ix hix hskip
-      hmon hgeP hle _ k y0 m0 d0 [] l' hv0 hl0 hc (Acc.nil _ _ _) (Below.nil _ _ _) hl with a | ⟨b1, b2⟩
+    rcases wlyLoop_complete (wctx r p nti) hr hp hen (wlyIncs_nib r) x o ho hxy hx.1.2.2.2.2.1 ix hix
+      (fun y m d => ∃ j, Carry y0 m0 (d0 + j * wk (wctx r p nti)) y m d)
+      (fun y m d y2 m2 d2 ⟨j, hj⟩ hc2 => ⟨j + 1, by
+        rw [Nat.succ_mul, ← Nat.add_assoc]; exact hj.comp _ _ _ _ hc2⟩)
+      (fun y m d ⟨j, hj⟩ _ hcx => hsk nti y0 m0 d0 j y m d o ix hcap hy2 hv0 hl0 (by omega) hback hj ho hcx hmon hix)
+      hmon hgeP hle _ k y0 m0 d0 [] l' ⟨0, wly_start0 _ y0 m0 d0 hv0⟩ hv0 hl0 hc (Acc.nil _ _ _) (Below.nil _ _ _) hl
+      with a | ⟨b1, b2⟩
     · exact Or.inl (List.mem_reverse.2 a)
     · refine Or.inr ⟨by rw [List.length_reverse]; exact b1, ?_⟩
       intro z hz
       exact acc_ltP hacc hxin hx.1.2.2.2.2.1 b2 z (List.mem_reverse.1 hz)
+
+theorem fillWly_complete_nopos (r : Rule) (p : Inst) (n : Nat) (l : List Inst) (hr : WfRule r) (hp : WfInst p)
+    (hs : SeedOk r p) (_hn : n ≤ 64) (hy : 1901 ≤ p.y) (hpos : r.pos = []) (h : fillWly r p n = some l)
+    (x : Inst) (hx : WeeklyInst r p x) (hge : absOf p ≤ absOf x) (hle : ltP r.untl x = false) (hxy : x.y ≤ 2099) :
+    x ∈ l ∨ (l.length = capOf r n ∧ ∀ z ∈ l, ltP z x = true) := by
+  refine wly_complete' r p n l hr hp hs hy h x hx hge hle hxy ?_
+  intro nti y0 m0 d0 j y m d o ix _ _ _ _ _ _ _ _ _ _ _
+  unfold wlySkip
+  show ((!r.pos.isEmpty) && _) = false
+  rw [hpos]; rfl
+
+/-- C01, soundness of the weekly filler: every instant written is an instance of the rule anchored at the seed and is
+chosen by BYSETPOS (`hf`: the rule's frequency, which `SetposOk` refers to, is WEEKLY — needed only with BYSETPOS) -/
+theorem fillWly_sound (r : Rule) (p : Inst) (n : Nat) (l : List Inst) (hr : WfRule r) (hp : WfInst p)
+    (hs : SeedOk r p) (hn : n ≤ 64) (hy : 1901 ≤ p.y) (hf : r.pos ≠ [] → r.freq = 3) (h : fillWly r p n = some l) :
+    ∀ x ∈ l, WeeklyInst r p x ∧ SetposOk r p x := by
+  intro x hx
+  refine ⟨fillWly_inst r p n l hr hp hs hn hy h x hx, ?_⟩
+  by_cases hpos : r.pos = []
+  · exact Or.inl hpos
+  · cases hcap : capNti r n with
+    | none =>
+      rw [fillWly_none r p n hr hp hcap] at h
+      cases h; cases hx
+    | some nti =>
+      obtain ⟨y0, m0, d0, hv0, hl0, hy0, hback, he⟩ := fillWly_start r p n nti hr hp hy hcap
+      rw [he] at h
+      obtain ⟨l', hl, rfl⟩ := Option.map_eq_some_iff.1 h
+      have hen : EnumOk (wctx r p nti).e := makeEnum_ok r p hr hp hs.timeOk
+      have hpy := hp.year
+      refine wlyLoop_sound (wctx r p nti) hr hp hen (wlyIncs_nib r) (SetposOk r p) y0 m0 d0 hv0 ?_ _ 0
+        y0 m0 d0 [] l' (wly_start0 _ y0 m0 d0 hv0) (by omega) (fun z hz => by cases hz) hl x (List.mem_reverse.1 hx)
+      intro j y m d o ty tm td hcw ho hc hty hbit t ht hsk hge _
+      have hy2 : p.y ≤ 2099 := by
+        have := year_le_of_not_lt _ p (inR_of_wf hp) hge
+        exact Nat.le_trans this hty
+      have hd0 := hv0.2.2.1
+      obtain ⟨hv, -, -, -⟩ := hcw.props hv0.1 hv0.2.1 (by omega)
+      have ho6 := (offs_range (wlyIncs_nib r) (show 0 + 6 ≤ 0 + 6 by omega) ho).2
+      exact (wlySkip_iff r p nti hr hp hs hy2 (hf hpos) hpos hv0 hl0 (by omega) hback j y m d hcw
+        (week_bound hv (by omega) hc hty) o ho ty tm td hc hbit t ht).1 hsk
+
+/-- C01, completeness of the weekly filler: an instance `x` chosen by BYSETPOS, at or after the seed, not after UNTIL
+and not after 2099 is in the result `l`, or `l` is full (`capOf r n` elements) and all of it comes before `x` -/
+theorem fillWly_complete (r : Rule) (p : Inst) (n : Nat) (l : List Inst) (hr : WfRule r) (hp : WfInst p)
+    (hs : SeedOk r p) (hn : n ≤ 64) (hy : 1901 ≤ p.y) (hf : r.pos ≠ [] → r.freq = 3) (h : fillWly r p n = some l)
+    (x : Inst) (hx : WeeklyInst r p x) (hsp : SetposOk r p x) (hge : absOf p ≤ absOf x)
+    (hle : ltP r.untl x = false) (hxy : x.y ≤ 2099) :
+    x ∈ l ∨ (l.length = capOf r n ∧ ∀ z ∈ l, ltP z x = true) := by
+  by_cases hpos : r.pos = []
+  · exact fillWly_complete_nopos r p n l hr hp hs hn hy hpos h x hx hge hle hxy
+  · refine wly_complete' r p n l hr hp hs hy h x hx hge hle hxy ?_
+    intro nti y0 m0 d0 j y m d o ix _ hy2 hv0 hl0 hy0 hback hcw ho hc hbit hix
+    have hd0 := hv0.2.2.1
+    obtain ⟨hv, -, -, -⟩ := hcw.props hv0.1 hv0.2.1 (by omega)
+    have ho6 := (offs_range (wlyIncs_nib r) (show 0 + 6 ≤ 0 + 6 by omega) ho).2
+    have hxeq : mkz x.y x.m x.d p.ms (ix, x.H, x.M, x.S) = x := by
+      have hms := hx.1.2.2.2.2.1
+      unfold mkz
+      cases x
+      simp only at hms
+      subst hms
+      rfl
+    have := (wlySkip_iff r p nti hr hp hs hy2 (hf hpos) hpos hv0 hl0 hy0 hback j y m d hcw
+      (week_bound hv (by omega) hc hxy) o ho x.y x.m x.d hc hbit (ix, x.H, x.M, x.S) hix).2
+    rw [hxeq] at this
+    exact this hsp
 
 end Echse.Lemmas.RrWlyRfc
